@@ -40,10 +40,16 @@ def own(p):
     return ("own", p)
 
 
-def fresh(k, p):
+def fresh(k, p, obj=False):
+    """obj: some fresh layer is an instance object (a shallow copy, a constructor result), not a built-in container; without
+    the flag every fresh layer is a list / dict / set / tuple / generator, which cannot take an attribute store"""
     if p is None:
         return FRESH
-    return ("fresh", min(k, 4), p)
+    return ("fresh", min(k, 4), p, "obj") if obj else ("fresh", min(k, 4), p)
+
+
+def is_obj(v):
+    return len(v) > 3
 
 
 def mix(p):
@@ -59,7 +65,7 @@ def elem(v):
     if v[0] == "fresh":
         if v[2] is None:
             return FRESH
-        return own(v[2]) if v[1] <= 1 else fresh(v[1] - 1, v[2])
+        return own(v[2]) if v[1] <= 1 else fresh(v[1] - 1, v[2], is_obj(v))
     if v[0] == "tuple":
         return join_all(v[1])
     return TOP
@@ -69,7 +75,7 @@ def wrap(v):
     if v[0] == "own":
         return fresh(1, v[1])
     if v[0] == "fresh":
-        return FRESH if v[2] is None else fresh(v[1] + 1, v[2])
+        return FRESH if v[2] is None else fresh(v[1] + 1, v[2], is_obj(v))
     if v[0] == "tuple":
         return wrap(join_all(v[1]))
     return TOP
@@ -99,7 +105,7 @@ def join(a, b):
         if b[2] is None:
             return a
         if a[2] == b[2]:
-            return fresh(min(a[1], b[1]), a[2]) if a[1] == b[1] else TOP
+            return fresh(min(a[1], b[1]), a[2], is_obj(a) or is_obj(b)) if a[1] == b[1] else TOP
     return TOP
 
 
@@ -321,7 +327,9 @@ class _Analysis:
         if v[0] == "fresh":
             if v[2] is None:
                 return FRESH
-            return ("fresh", v[1], self.params.index(v[2])) if v[2] in self.params else TOP
+            if v[2] not in self.params:
+                return TOP
+            return ("fresh", v[1], self.params.index(v[2]), "obj") if is_obj(v) else ("fresh", v[1], self.params.index(v[2]))
         if v[0] == "tuple":
             return self._to_summary_value(wrap(join_all(v[1])))
         return TOP
@@ -464,7 +472,7 @@ class _Analysis:
             return env2
         layers = depth + 1 + (v[1] if v[0] == "fresh" else 0)
         env2 = dict(env)
-        env2[root] = fresh(max(layers, cur[1] if cur[2] is not None else 0), owner)
+        env2[root] = fresh(max(layers, cur[1] if cur[2] is not None else 0), owner, is_obj(cur) or (v[0] == "fresh" and is_obj(v)))
         return env2
 
     def bind_iter(self, target, iter_expr, itval, env2, env):
@@ -507,7 +515,7 @@ class _Analysis:
             self.assign(t.value, v, env, None)
 
     # ---------------------------------------------------------------- effects
-    def event(self, p, node, desc, path=None, root=None):
+    def event(self, p, node, desc, path=None, root=None, kind="other"):
         if not self._record:
             return
         if p not in self.params:
@@ -518,7 +526,7 @@ class _Analysis:
             root = f"{path[-1]}|{tag[:40]}"
         self.events.append({"param": p, "param_index": self.params.index(p), "node": node, "func": self.f.qname,
                             "file": self.f.module.relpath, "line": getattr(node, "lineno", 0), "desc": desc,
-                            "path": path, "root": root, "guards": self._param_guards(node)})
+                            "path": path, "root": root, "guards": self._param_guards(node), "kind": kind})
 
     def _attr_store_reaches(self, e: ast.Attribute) -> bool:
         """some statement storing `<same name>.<same attr>` can execute before this read (CFG reachability)"""
@@ -578,7 +586,8 @@ class _Analysis:
             self.ev(t.slice, env)
         if base[0] in ("own", "mix"):
             what = f".{t.attr}" if isinstance(t, ast.Attribute) else "[...]"
-            self.event(base[1], t, f"{kind} to `{norm(t)[:60]}` — `{norm(t.value)[:40]}` belongs to `{base[1]}`")
+            self.event(base[1], t, f"{kind} to `{norm(t)[:60]}` — `{norm(t.value)[:40]}` belongs to `{base[1]}`",
+                       kind="attr" if isinstance(t, ast.Attribute) else "other")
         elif isinstance(t, ast.Attribute) and base != TOP:
             # property setters on fresh objects: no effect on params
             pass
@@ -765,6 +774,8 @@ class _Analysis:
             v = argvals[rv[2]]
             for _ in range(rv[1]):
                 v = wrap(v)
+            if is_obj(rv) and v[0] == "fresh" and v[2] is not None:
+                v = fresh(v[1], v[2], True)
             return v
         return TOP
 
@@ -802,10 +813,10 @@ class _Analysis:
             if name == "getattr" and argv:
                 return argv[0] if argv[0][0] == "own" else TOP
             if name == "setattr" and argv and argv[0][0] == "own":
-                self.event(argv[0][1], e, f"setattr on `{norm(e.args[0])[:40]}`, which belongs to `{argv[0][1]}`")
+                self.event(argv[0][1], e, f"setattr on `{norm(e.args[0])[:40]}`, which belongs to `{argv[0][1]}`", kind="attr")
                 return FRESH
             if name == "copy" and argv:
-                return wrap(argv[0]) if argv[0][0] == "own" else argv[0]
+                return fresh(1, argv[0][1], True) if argv[0][0] == "own" else argv[0]
             if name == "deepcopy":
                 return FRESH
         for kind, tgt, _ in targets:
@@ -813,7 +824,7 @@ class _Analysis:
                 if tgt in ("copy.deepcopy",):
                     return FRESH
                 if tgt == "copy.copy" and argv:
-                    return wrap(argv[0]) if argv[0][0] == "own" else argv[0]
+                    return fresh(1, argv[0][1], True) if argv[0][0] == "own" else argv[0]
                 if tgt in ALIASING_NP and argv:
                     return argv[0]
                 if tgt.startswith("numpy.") or tgt.startswith("scipy."):
@@ -860,7 +871,7 @@ class _Analysis:
                     self._arg_effects(e, init, vals, kwv, mut_sets, bound=True)
                 owned = [v for v in argv + list(kwv.values()) if v[0] in ("own",) or (v[0] == "fresh" and v[2] is not None)]
                 ps = {v[1] if v[0] == "own" else v[2] for v in owned}
-                results.append(fresh(1, ps.pop()) if len(ps) == 1 else (FRESH if not ps else TOP))
+                results.append(fresh(1, ps.pop(), True) if len(ps) == 1 else (FRESH if not ps else TOP))
                 continue
             g = tgt
             bound = isinstance(fn, ast.Attribute) and g.cls is not None and not g.is_static and \
@@ -893,7 +904,7 @@ class _Analysis:
                 common &= set(ms)
             for key in common:
                 info = mut_sets[0][key]
-                self.event(key[0], e, info["desc"], path=info["path"], root=info["root"])
+                self.event(key[0], e, info["desc"], path=info["path"], root=info["root"], kind=info.get("kind", "other"))
         r = results[0]
         for x in results[1:]:
             r = join(r, x)
@@ -968,12 +979,21 @@ class _Analysis:
                 v = vals[idx]
             if idx < len(params) and params[idx] in kwv:
                 v = kwv[params[idx]]
-            if v is None or v[0] not in ("own", "mix"):
+            if v is None:
+                continue
+            owner = None
+            if v[0] in ("own", "mix"):
+                owner = v[1]
+            elif v[0] == "fresh" and v[2] is not None and not is_obj(v) and inner.get("kind") == "attr":
+                # every fresh layer of the argument is a built-in container; the callee stores an *attribute*, which containers do
+                # not take: the object it writes is one of the owner's objects inside those containers
+                owner = v[2]
+            if owner is None:
                 continue
             if self._guard_excluded(call, g, inner.get("guards") or (), bound):
                 continue
             pname = params[idx] if idx < len(params) else f"#{idx}"
-            found[(v[1], inner["root"])] = {"desc": f"`{norm(call)[:60]}` passes an object of `{v[1]}` as `{pname}` to {g.qname.split(':')[1]}, which mutates it "
-                                                    f"({inner['desc'][:120]})",
-                                            "path": [self.f.qname] + inner["path"], "root": inner["root"]}
+            found[(owner, inner["root"])] = {"desc": f"`{norm(call)[:60]}` passes an object of `{owner}` as `{pname}` to {g.qname.split(':')[1]}, which mutates it "
+                                                     f"({inner['desc'][:120]})",
+                                             "path": [self.f.qname] + inner["path"], "root": inner["root"], "kind": inner.get("kind", "other")}
         mut_sets.append(found)
